@@ -254,6 +254,29 @@ def enrich(rng: random.Random, aw: dict, knobs: dict) -> dict:
             r, i = rng.choice(cands)
             r[i] = "A" + NBSP + "B " + r[i] if rng.random() < 0.5 else r[i] + NBSP + "z"
             applied.append("nbsp")
+    if rng.random() < knobs.get("p_space_runs", 0.25):
+        # runs of nbsp / spaces (nbsp next to a space, two nbsp, plain double spaces) in cells whose text is
+        # not squeezed later: choice labels, form_title, external_choices, survey cells with clean_text_values = no
+        seps = [NBSP * 2, " " + NBSP, NBSP + " ", "  ", NBSP + " " + NBSP, "   ", NBSP]
+        settings = next((s for s in aw["sheets"] if s["name"] == "settings"), None)
+        if settings is None:
+            settings = {"name": "settings", "header": [], "rows": [[]]}
+            aw["sheets"].append(settings)
+        if not settings["rows"]:
+            settings["rows"].append([""] * len(settings["header"]))
+        settings["rows"][0].extend([""] * (len(settings["header"]) - len(settings["rows"][0])))
+        ti = col(settings, "form_title")
+        settings["rows"][0][ti] = "My" + rng.choice(seps) + "form" + rng.choice(["", rng.choice(seps) + "v2"])
+        if rng.random() < 0.4:
+            ci = col(settings, "clean_text_values")
+            settings["rows"][0][ci] = "no"
+        targets = []
+        if choices is not None:
+            targets += [(r, i) for r in choices["rows"] for i, h in enumerate(choices["header"]) if h.startswith("label") and i < len(r) and r[i]]
+        targets += [(r, i) for r in survey["rows"] for i, h in enumerate(survey["header"]) if h.startswith(("label", "hint")) and i < len(r) and r[i]]
+        for r, i in rng.sample(targets, k=min(len(targets), 3)):
+            r[i] = rng.choice(["Red", "a", "x1"]) + rng.choice(seps) + rng.choice(["apple", "b", "Z"]) + rng.choice(["", rng.choice(seps) + "end"])
+        applied.append("space_runs")
     if rng.random() < knobs.get("p_blank_row", 0.25):
         sheet = rng.choice([s for s in (survey, choices) if s is not None and s["rows"]] or [survey])
         if sheet["rows"]:
@@ -305,29 +328,14 @@ def enrich(rng: random.Random, aw: dict, knobs: dict) -> dict:
     return applied
 
 
-def transform_for(container: str, aw: dict) -> tuple[dict, list[str]]:
-    """The abstract workbook a container is *known* to deliver instead of `aw`
-    (DESIGN 7.2: F16 md/csv drop blank rows; F29 xls/xlsx read an interior nbsp as a space)."""
-    f = aw_features(aw)
-    which = []
-    out = aw
-    if container in ("md", "csv") and f["blank_row"]:
-        out = copy.deepcopy(out)
-        for s in out["sheets"]:
-            n = len(s["header"])
-            keep = []
-            for r in s["rows"]:
-                if any(h != "" and c != "" for h, c in zip(s["header"], r)) or any(c != "" for c in r[n:]):
-                    keep.append(r)
-            s["rows"] = keep
-        which.append("F16")
-    if container in ("xlsx", "xlsm", "xls") and f["nbsp"]:
-        out = copy.deepcopy(out)
-        for s in out["sheets"]:
-            s["header"] = [h.replace(NBSP, " ") for h in s["header"]]
-            s["rows"] = [[c.replace(NBSP, " ") for c in r] for r in s["rows"]]
-        which.append("F29")
-    return out, which
+def canonical_reading(aw: dict) -> dict:
+    """What every file container reads: a U+00A0 in a cell *value* is a plain space (headers and sheet
+    names are untouched).  The dict input is taken as it is, so the reference for the file containers is
+    the dict container of this reading."""
+    out = copy.deepcopy(aw)
+    for s in out["sheets"]:
+        s["rows"] = [[c.replace(NBSP, " ") for c in r] for r in s["rows"]]
+    return out
 
 
 # --------------------------------------------------------------------------- rendering choices
@@ -468,8 +476,6 @@ def xlsx_representable(aw: dict) -> bool:
 
 KNOWN_SHAPES = {
     "F48": "csv: an unnamed (spacer) column on the choices sheet is kept as the header '' and draws the invalid-header warning; xls/xlsx/md/dict drop or ignore it",
-    "F16": "md/csv drop interior blank rows that xls/xlsx/dict keep",
-    "F29": "interior U+00A0 read as a space by xls/xlsx, kept by md/csv/dict",
 }
 
 
@@ -506,15 +512,6 @@ def judge(ctx, case, container, channel, mode, obs, ref_obs, aw_ref, data_text=N
         ctx.fail(Failure("channel-differs", f"{fid}: {KNOWN_SHAPES[fid]} ({container}/{channel}/{mode}, {level})", case,
                          signature=fid, extra=e))
 
-    # deviations predicted by a transformation of the workbook
-    aw_t, which = transform_for(container, aw_ref)
-    if which:
-        d = C.to_dict(aw_t, fallback=stem)
-        exp = run_convert(copy.deepcopy(d)) if level == "convert" else run_parse(copy.deepcopy(d))
-        if eq(obs, exp):
-            for fid in which:
-                known(fid, transformed=True)
-            return False
     ctx.fail(Failure("channel-differs", f"{container} via {channel} ({mode} file_type), {level} level: result differs from the dict channel",
                      case, signature=f"differs:{container}:{level}", extra=extra))
     return False
@@ -610,7 +607,8 @@ def case_run(ctx, case, scratch: C.Scratch, full: bool = True):
         raise vcore.Infra(f"truncation predicate of the harness is wrong on a directed case: expected {case['expect_truncating']}")
     stem = case.get("stem", "data")
 
-    ref_dict = C.to_dict(aw_ref)
+    aw_can = canonical_reading(aw_ref)
+    ref_dict = C.to_dict(aw_can)
     ref = run_convert(copy.deepcopy(ref_dict))
     ref_dd = run_parse(copy.deepcopy(ref_dict))
     refs_by_stem = {}
@@ -618,7 +616,7 @@ def case_run(ctx, case, scratch: C.Scratch, full: bool = True):
     def ref_for(st, level):
         """the dict channel's result with `fallback_form_name` = the stem the harness reads off the file name"""
         if (st, level) not in refs_by_stem:
-            d = C.to_dict(aw_ref, fallback=st)
+            d = C.to_dict(aw_can, fallback=st)
             refs_by_stem[(st, level)] = run_convert(copy.deepcopy(d)) if level == "convert" else run_parse(copy.deepcopy(d))
         return refs_by_stem[(st, level)]
     ctx.count("dict:" + ref["class"])
@@ -626,7 +624,7 @@ def case_run(ctx, case, scratch: C.Scratch, full: bool = True):
 
     # the dict container with the unrelated sheet left in (F26)
     if feats["extra_sheet"]:
-        o = run_convert(copy.deepcopy(C.to_dict(aw_ref, keep_unsupported=True)))
+        o = run_convert(copy.deepcopy(C.to_dict(aw_can, keep_unsupported=True)))
         judge(ctx, case, "dict", "dict", "n/a", o, ref, aw_ref)
         compared += 1
 
@@ -764,6 +762,13 @@ def directed_cases() -> list[dict]:
     aw = copy.deepcopy(base)
     aw["sheets"][0]["rows"][0][2] = "A" + NBSP + "B"
     out.append(mk(aw))
+    # runs of nbsp / spaces in cells that nothing squeezes later (choice label, form_title, clean_text_values = no)
+    aw = copy.deepcopy(base)
+    aw["sheets"][0]["rows"] = [["select_one l", "a", "Pick" + NBSP + NBSP + "one"], ["text", "b", "two  spaces " + NBSP + "here"]]
+    aw["sheets"].append({"name": "choices", "header": ["list_name", "name", "label"],
+                         "rows": [["l", "x", "Red" + NBSP + NBSP + "apple"], ["l", "y", "Green " + NBSP + "pear  tree"]]})
+    aw["sheets"].append({"name": "settings", "header": ["form_title", "clean_text_values"], "rows": [["My" + NBSP + " form", "no"]]})
+    out.append(mk(aw))
     # F26: unrelated sheet
     aw = copy.deepcopy(base)
     aw["sheets"].append({"name": "notes", "header": ["x"], "rows": [["1"]]})
@@ -880,8 +885,6 @@ def _m(fid, pred):
 
 MATCHERS = {
     "F48-csv-unnamed-choices-column-warning": _m("F48", lambda f: f.extra["where"]["container"] == "csv" and f.extra.get("unnamed_choices_column")),
-    "F16-md-csv-drop-blank-rows": _m("F16", lambda f: f.extra["where"]["container"] in ("md", "csv") and f.extra["features"]["blank_row"] and f.extra.get("transformed")),
-    "F29-interior-nbsp": _m("F29", lambda f: f.extra["where"]["container"] in ("xlsx", "xlsm", "xls") and f.extra["features"]["nbsp"] and f.extra.get("transformed")),
 }
 
 
